@@ -1201,6 +1201,18 @@ Definition node_op (m : nat -> M unit) (N N' : rtree) : Prop :=
     nth_error rs r = Some (Some (mk_hnd tid (pp ++ [i]))) ->
     nth_error ts tid = Some (mk_slot true ri T) ->
     get_path T (pp ++ [i]) = Some N ->
+    exists ts' F,
+      runs (m r) (mk_state ts rs) tt (mk_state ts' (map (option_map F) rs)) /\
+      nth_error ts' tid = Some (mk_slot true ri (upd_path T (pp ++ [i]) (fun _ => N'))) /\
+      (forall g, h_tid g < length ts -> above tid (pp ++ [i]) g -> F g = g) /\
+      (forall j, j <> tid -> j < length ts -> nth_error ts' j = nth_error ts j).
+(* read on the registers: the register keeps its handle, every handle that is not strictly below
+   the node stays *)
+Lemma node_op_regs m N N' : node_op m N N' ->
+  forall ts rs r tid ri T pp i,
+    nth_error rs r = Some (Some (mk_hnd tid (pp ++ [i]))) ->
+    nth_error ts tid = Some (mk_slot true ri T) ->
+    get_path T (pp ++ [i]) = Some N ->
     exists ts' rs',
       runs (m r) (mk_state ts rs) tt (mk_state ts' rs') /\
       length rs' = length rs /\
@@ -1208,6 +1220,15 @@ Definition node_op (m : nat -> M unit) (N N' : rtree) : Prop :=
       nth_error rs' r = Some (Some (mk_hnd tid (pp ++ [i]))) /\
       (forall q g, q <> r -> nth_error rs q = Some (Some g) -> h_tid g < length ts -> above tid (pp ++ [i]) g ->
                    nth_error rs' q = Some (Some g)).
+Proof.
+  intros H ts rs r tid ri T pp i Hr HT HG.
+  pose proof (nth_error_Some_lt _ _ _ HT) as Hlt.
+  destruct (H ts rs r tid ri T pp i Hr HT HG) as (ts' & F & R & T' & A & O).
+  exists ts', (map (option_map F) rs). repeat split; auto.
+  - apply map_length.
+  - rewrite nth_error_map, Hr. cbn [option_map]. rewrite A; [reflexivity|exact Hlt|apply above_self].
+  - intros q g _ Hq Hg Ha. rewrite nth_error_map, Hq. cbn [option_map]. rewrite A; auto.
+Qed.
 
 Lemma list5 {A} (l : list A) : length l = 5 -> exists x0 x1 x2 x3 x4, l = [x0; x1; x2; x3; x4].
 Proof.
@@ -1227,7 +1248,7 @@ Lemma rel_node_op_runs m r0' fa ra r0 rb fb ts tid ri c d :
 Proof.
   intros Hop HT.
   pose proof (nth_error_Some_lt _ _ _ HT) as Hlt.
-  destruct (Hop ts [Some (mk_hnd tid []); Some (mk_hnd tid [3 * length fa]); Some (mk_hnd tid [3 * length fa; 4 * length ra]); c; d]
+  destruct (node_op_regs _ _ _ Hop ts [Some (mk_hnd tid []); Some (mk_hnd tid [3 * length fa]); Some (mk_hnd tid [3 * length fa; 4 * length ra]); c; d]
                 2 tid ri _ [3 * length fa] (4 * length ra) eq_refl HT (get_path_cfield_rel fa ra r0 rb fb))
     as (ts' & rs' & R3 & L3 & T3 & S3 & A3).
   destruct (list5 rs' L3) as (x0 & x1 & x2 & x3 & x4 & ->).
@@ -1250,7 +1271,8 @@ Lemma splice_new_replace_spec ts rs r tid ri T p kd pre x post n :
   exists ts' F,
     runs (splice_new r (length pre) (S (length pre)) n) (mk_state ts rs) tt (mk_state ts' (map (option_map F) rs)) /\
     nth_error ts' tid = Some (mk_slot true ri (upd_path T p (fun _ => Node kd (pre ++ n :: post)))) /\
-    (forall g, h_tid g < length ts -> above tid p g -> F g = g).
+    (forall g, h_tid g < length ts -> above tid p g -> F g = g) /\
+    (forall j, j <> tid -> j < length ts -> nth_error ts' j = nth_error ts j).
 Proof.
   intros Hr HT HG. pose proof (nth_error_Some_lt _ _ _ HT) as Hlt.
   destruct (splice_replace_spec (ts ++ [mk_slot true 0 n]) (rs ++ [Some (mk_hnd (length ts) [])]) r (length rs)
@@ -1258,12 +1280,37 @@ Proof.
               (nth_error_app_l _ _ _ _ Hr) (nth_error_app_at _ _) (nth_error_app_l _ _ _ _ HT) HG
               (nth_error_app_at _ _) ltac:(lia))
     as (ts' & F & R & L & T' & N & O & S1 & S2 & A).
-  exists ts', F. split; [|split].
+  exists ts', F. split; [|split; [|split]].
   - unfold splice_new. eapply runs_eq; [apply runs_scoped|reflexivity|].
     + rbind; [apply runs_alloc|]. rbind; [apply runs_push_tmp|]. exact R.
     + now rewrite firstn_map_app_len.
   - exact T'.
   - intros g Hg Ha. apply A; [lia|exact Ha].
+  - intros j Hj Hl. rewrite O; [|exact Hj|lia|rewrite app_length; cbn; lia]. now apply nth_error_app1.
+Qed.
+
+Lemma splice_new_insert_spec_o ts rs r tid ri T p kd cs idx n :
+  nth_error rs r = Some (Some (mk_hnd tid p)) -> nth_error ts tid = Some (mk_slot true ri T) ->
+  get_path T p = Some (Node kd cs) -> idx <= length cs ->
+  exists ts' F,
+    runs (splice_new r idx idx n) (mk_state ts rs) tt (mk_state ts' (map (option_map F) rs)) /\
+    nth_error ts' tid = Some (mk_slot true ri (upd_path T p (fun _ => Node kd (insert_at idx [n] cs)))) /\
+    (forall g, h_tid g < length ts -> above tid p g -> F g = g) /\
+    (forall j, j <> tid -> j < length ts -> nth_error ts' j = nth_error ts j).
+Proof.
+  intros Hr HT HG Hidx. pose proof (nth_error_Some_lt _ _ _ HT) as Hlt.
+  destruct (splice_insert_spec (ts ++ [mk_slot true 0 n]) (rs ++ [Some (mk_hnd (length ts) [])]) r (length rs)
+              tid ri T p kd cs idx (length ts) 0 n
+              (nth_error_app_l _ _ _ _ Hr) (nth_error_app_at _ _) (nth_error_app_l _ _ _ _ HT) HG
+              (nth_error_app_at _ _) ltac:(lia) Hidx)
+    as (ts' & R & L & T' & O).
+  exists ts', (rebase_attach tid p idx (length ts)). split; [|split; [|split]].
+  - unfold splice_new. eapply runs_eq; [apply runs_scoped|reflexivity|].
+    + rbind; [apply runs_alloc|]. rbind; [apply runs_push_tmp|]. exact R.
+    + now rewrite firstn_map_app_len.
+  - exact T'.
+  - intros g Hg Ha. apply rebase_attach_above; [lia|exact Ha].
+  - intros j Hj Hl. rewrite O; [|exact Hj|lia]. now apply nth_error_app1.
 Qed.
 
 Lemma splice_new_insert_spec ts rs r tid ri T p kd cs idx n :
@@ -1274,18 +1321,8 @@ Lemma splice_new_insert_spec ts rs r tid ri T p kd cs idx n :
     nth_error ts' tid = Some (mk_slot true ri (upd_path T p (fun _ => Node kd (insert_at idx [n] cs)))) /\
     (forall g, h_tid g < length ts -> above tid p g -> F g = g).
 Proof.
-  intros Hr HT HG Hidx. pose proof (nth_error_Some_lt _ _ _ HT) as Hlt.
-  destruct (splice_insert_spec (ts ++ [mk_slot true 0 n]) (rs ++ [Some (mk_hnd (length ts) [])]) r (length rs)
-              tid ri T p kd cs idx (length ts) 0 n
-              (nth_error_app_l _ _ _ _ Hr) (nth_error_app_at _ _) (nth_error_app_l _ _ _ _ HT) HG
-              (nth_error_app_at _ _) ltac:(lia) Hidx)
-    as (ts' & R & L & T' & O).
-  exists ts', (rebase_attach tid p idx (length ts)). split; [|split].
-  - unfold splice_new. eapply runs_eq; [apply runs_scoped|reflexivity|].
-    + rbind; [apply runs_alloc|]. rbind; [apply runs_push_tmp|]. exact R.
-    + now rewrite firstn_map_app_len.
-  - exact T'.
-  - intros g Hg Ha. apply rebase_attach_above; [lia|exact Ha].
+  intros Hr HT HG Hidx. destruct (splice_new_insert_spec_o ts rs r tid ri T p kd cs idx n Hr HT HG Hidx) as (ts' & F & R & T' & A & _).
+  now exists ts', F.
 Qed.
 
 (* from "children replaced under F" to the node_op form *)
@@ -1294,17 +1331,10 @@ Lemma node_op_from_F (m : nat -> M unit) N N' :
      nth_error ts tid = Some (mk_slot true ri T) -> get_path T p = Some N ->
      exists ts' F, runs (m r) (mk_state ts rs) tt (mk_state ts' (map (option_map F) rs)) /\
        nth_error ts' tid = Some (mk_slot true ri (upd_path T p (fun _ => N'))) /\
-       (forall g, h_tid g < length ts -> above tid p g -> F g = g)) ->
+       (forall g, h_tid g < length ts -> above tid p g -> F g = g) /\
+       (forall j, j <> tid -> j < length ts -> nth_error ts' j = nth_error ts j)) ->
   node_op m N N'.
-Proof.
-  intros H ts rs r tid ri T pp i Hr HT HG.
-  pose proof (nth_error_Some_lt _ _ _ HT) as Hlt.
-  destruct (H ts rs r tid ri T (pp ++ [i]) Hr HT HG) as (ts' & F & R & T' & A).
-  exists ts', (map (option_map F) rs). repeat split; auto.
-  - apply map_length.
-  - rewrite (nth_error_map_reg F _ _ _ Hr). rewrite A; [reflexivity|exact Hlt|apply above_self].
-  - intros q g _ Hq Hg Ha. rewrite (nth_error_map_reg F _ _ _ Hq). rewrite A; auto.
-Qed.
+Proof. intros H ts rs r tid ri T pp i Hr HT HG. exact (H ts rs r tid ri T (pp ++ [i]) Hr HT HG). Qed.
 
 (* an operation that is one splice of freshly built elements into the node itself *)
 Lemma insert_fresh_node_op (m : nat -> M unit) k cs idx new : idx <= length cs ->
@@ -1315,7 +1345,7 @@ Lemma insert_fresh_node_op (m : nat -> M unit) k cs idx new : idx <= length cs -
 Proof.
   intros Hidx Hm. apply node_op_from_F. intros ts rs r tid ri T p Hr HT HG.
   destruct (m_insert_fresh_spec new ts rs r tid ri T p k cs idx Hr HT HG Hidx) as (ts' & F & R & L & T' & O & A & B).
-  exists ts', F. split; [now apply (Hm ts rs r tid ri T p Hr HT HG)|]. split; [exact T'|exact A].
+  exists ts', F. split; [now apply (Hm ts rs r tid ri T p Hr HT HG)|]. split; [exact T'|split; [exact A|exact O]].
 Qed.
 
 (* ------------------------------------------------------------------ Relation::set_archqual *)
@@ -1348,7 +1378,7 @@ Proof.
     exists ts', F. split; [|split; [exact T'|exact A]].
     eapply Hhead; [exact R|]. destruct v as [[vc ver]|]; reflexivity.
   - (* insert it after the name *)
-    destruct (splice_new_insert_spec ts rs r tid ri T p RELATION _ 1 (archqual_node q) Hr HT HG) as (ts' & F & R & T' & A).
+    destruct (splice_new_insert_spec_o ts rs r tid ri T p RELATION _ 1 (archqual_node q) Hr HT HG) as (ts' & F & R & T' & A).
     { destruct v as [[vc ver]|]; cbn; lia. }
     exists ts', F. split; [|split; [|exact A]].
     + eapply Hhead; [exact R|]. destruct v as [[vc ver]|]; reflexivity.
@@ -1457,7 +1487,8 @@ Lemma drop_constraint_spec n q vc0 ver0 ts rs r tid ri T p :
   exists ts' F,
     runs (relation_drop_constraint r) (mk_state ts rs) true (mk_state ts' (map (option_map F) rs)) /\
     nth_error ts' tid = Some (mk_slot true ri (upd_path T p (fun _ => crel_tree (mk_relrec n q None None [])))) /\
-    (forall g, h_tid g < length ts -> above tid p g -> F g = g).
+    (forall g, h_tid g < length ts -> above tid p g -> F g = g) /\
+    (forall j, j <> tid -> j < length ts -> nth_error ts' j = nth_error ts j).
 Proof.
   intros Hr HT HG. pose proof (nth_error_Some_lt _ _ _ HT) as Hlt.
   set (pre0 := Tok IDENT n :: qual_elems q).
@@ -1475,7 +1506,8 @@ Proof.
     by (unfold rs1; rewrite (nth_error_map_reg F1 _ _ _ (nth_error_app_at _ _)); now rewrite S1).
   destruct (detach_reg_spec ts1 _ (length rs) tid ri T1' p RELATION pre0 (version_node vc0 ver0) [] Hr1 T1 HG1)
     as (ts2 & F2 & R2 & L2 & T2 & N2 & O2 & S2 & A2).
-  exists ts2, (fun g => F2 (F1 g)). split; [|split].
+  exists ts2, (fun g => F2 (F1 g)). split; [|split; [|split]].
+  4:{ intros j Hj Hl. rewrite O2 by lia. now apply O1. }
   - unfold relation_drop_constraint. rbind; [apply runs_get_reg; exact Hr|].
     rbind; [eapply runs_children_of; [exact HT|exact HG]|]. cbn [children].
     assert (Efi : find_index (node_is VERSION) (pre0 ++ [t_space] ++ [version_node vc0 ver0]) = Some (length pre0 + 1))
